@@ -51,17 +51,19 @@ PROPS = {
                 "strings, contiguity/gap patterns, shared-library shaped groups with the linker's reserved gaps, offsets equal to the previous end) "
                 "parsed by procfs-core and aggregated by the real MappingInfo::aggregate with a vDSO address that hits / misses a line; plus all "
                 "sequences of ≤ 3 (quick) / ≤ 4 (thorough) lines over a 10-line alphabet × gap bits. Non-trivial = at least one merge rule fires; "
-                "distinct = distinct (gate?, rule sequence, per-line (perms, name length)). Line permissions include inaccessible shared (---s) and write-only lines.",
-        "expected_tags": ["rule1", "rule2", "rule3", "push", "gate.renamed"],
+                "distinct = distinct (gate?, rule sequence, per-line (perms, name length)). Line permissions include inaccessible shared (---s) and write-only lines. "
+                "Live cases: the dumper's own mapping list of a stopped target, after 0–2 further init() calls on the same dumper, against the target's "
+                "memory map (the four predicates on the list in address order; then model = aggregate + entry-point swap).",
+        "expected_tags": ["rule1", "rule2", "rule3", "push", "gate.renamed", "live", "live.reinits.0", "live.reinits.1", "live.reinits.2"],
         "trusted_base": ["procfs-core's maps line parser (the harness feeds the parsed entries to the model)"],
         "assumptions": ["well-formed memory map: non-empty ranges, ascending, non-overlapping (what the kernel reports)",
                         "'executable file mapping' in the third merge reason is read as 'file (path) mapping', which is what the code and Breakpad test"],
         "explanation": "C13 theorems over the Lean model of MappingInfo::aggregate (ghost-instrumented fold with an invariant proved by induction over "
                        "the lines): block decomposition / hull / admissible merge reasons, order and disjointness, cover and uniqueness, linux-gate "
                        "naming, system range inside the hull; the model is compared with the real aggregate on every generated map and the same "
-                       "decidable predicates are evaluated on the implementation's output. C13_layout (Theorems/SystemLayout.lean): the aggregation of a well-formed map satisfies the layout hypothesis (system range inside the hull, system ranges pairwise disjoint, no 64-bit overflow) under which the sanitizer, the stack lookup and the whole gathering are total — what C12 / C06 / C02 assume of the mapping list is what C13 provides.",
-        "extra_theorems": ["C13_layout", "sortedDisjoint_lt"],
-        "extra_modules": ["MdwModel.Theorems.SystemLayout"],
+                       "decidable predicates are evaluated on the implementation's output. DumperInit_* (Theorems/DumperInit.lean): the dumper's own list over any history of init() calls — a permutation of the aggregation of the last map read (the entry-point swap), every line in exactly one mapping, and put in address order it is that aggregation (all predicates); the one source fact used, that enumerate_mappings assigns the list rather than extending it, is regenerated from the source (Src.enumerateMappingsReplaces). C13_layout (Theorems/SystemLayout.lean): the aggregation of a well-formed map satisfies the layout hypothesis (system range inside the hull, system ranges pairwise disjoint, no 64-bit overflow) under which the sanitizer, the stack lookup and the whole gathering are total — what C12 / C06 / C02 assume of the mapping list is what C13 provides.",
+        "extra_theorems": ["C13_layout", "sortedDisjoint_lt", "DumperInit_source_agrees", "swapEntry_perm", "DumperInit_perm", "DumperInit_coveredOnce", "DumperInit_history", "DumperInit_sorted", "DumperInit_predicates"],
+        "extra_modules": ["MdwModel.Theorems.SystemLayout", "MdwModel.Theorems.DumperInit"],
     },
     "C12": {
         "rule": "real sanitize_stack_copy on a synthetic dumper: mapping layouts (0-8 mappings, 1 page … 2^40 bytes, executable or not, straddling "
@@ -71,7 +73,7 @@ PROPS = {
                 "(#mappings, length, offset mod 8, class set)."
                 " Plus real sanitizing dumps of live targets (the C01 generator): every captured stack must equal the model's sanitisation of the "
                 "target's bytes with the thread's stack pointer and the aggregated mappings (the call site).",
-        "expected_tags": ["word.small+", "word.small-", "word.stack", "word.code", "word.prefilter.falsepos", "word.other", "len<offset", "partial.tail", "stack.sanitized", "stack.defaced"],
+        "expected_tags": ["word.small+", "word.small-", "word.stack", "word.code", "word.prefilter.falsepos", "word.other", "len<offset", "partial.tail", "stack.sanitized", "stack.defaced", "sp.below"],
         "trusted_base": ["little-endian 64-bit words (x86_64)"],
         "assumptions": ["mapping list as produced by aggregate: system range inside the hull, pairwise disjoint system ranges, no 64-bit overflow (WfMaps; C13)"],
         "explanation": "C12 theorems over the Lean model of sanitize_stack_copy: totality, output structure (zeros below SP, classified words, zero partial tail), "
@@ -346,7 +348,7 @@ PROPS = {
                 "write_dso_debug_stream under a 3 s watchdog; whole dumps of targets mapping files with hostile names (non-ASCII, spaces, ' (deleted)', `.so.1.2.3é4`, "
                 "`/SYSVab`) and files from /dev/shm watched with inotify; the whole live option matrix with crash registers unmapped / at the top of the address space. "
                 "Distinct = distinct (kind, scenario, outcome) / parsed versions. Hostile linker data also with program-header counts beyond what an ELF header can announce (65535 … 74000) over a 4 MiB readable region. Generated modules with a note segment that ends in the middle of the build-id note. A case that does not come back within 45 s ends the run (HANG <case id>) and is reported as a violation with that case as replay.",
-        "expected_tags": ["sover", "sover.some", "sover.nonascii", "dso.cyclic", "dso.mulphnum", "dso.dyn-short", "dso.linkmap-short", "dso.vaddr-underflow", "files.devshm-nonelf",
+        "expected_tags": ["sover", "sover.some", "sover.nonascii", "dso.cyclic", "dso.rho", "dso.rho-long", "dso.tail-selfloop", "dso.mulphnum", "dso.dyn-short", "dso.linkmap-short", "dso.vaddr-underflow", "files.devshm-nonelf",
                           "files.sysv-name", "files.sover-name", "dump", "crash.ip.top", "crash.sp.top"],
         "extra_theorems": ["C12_total", "C06_total", "C06_walk_total", "C18_walk_cycle_diverges", "System_settled", "gatherStack_settled", "gatherThread_settled", "gatherApp_settled", "C13_layout", "System_settled_of_map"],
         "trusted_base": ["dependency code (procfs-core, goblin, nix, serde_json) is exercised, not modelled: panics inside it found by the live / fuzz runs are reported with a replay",
